@@ -59,7 +59,12 @@ def full_state(system):
             return None
         return [[float(a), float(b)] for a, b in d] if isinstance(d, list) else [float(d[0]), float(d[1])]
     st['variables'] = {str(v): {'domain': str(fl(v.get_domain())), 'norm': str([str(t) for t in v.norm]) if v.norm else 'None', 'dist': str(v.distribution), 'nominal': str(np.asarray(v.get_nominal(), dtype=float).tolist() if v.get_nominal() is not None else None),
-                                'raw_fields': str((v.nominal, v.description, v.units, v.tex, v.category))}
+                                'raw_fields': str((v.nominal, v.description, v.units, v.tex, v.category)),
+                                # what the distribution IS, not only how it prints: arguments, log base, density at three points of the domain
+                                'dist_detail': (None if v.distribution is None else
+                                                str(([float(t) for t in np.ravel(v.distribution.dist_args)], getattr(v.distribution, 'base', None),
+                                                     [float(t) for t in np.ravel(v.distribution.pdf(np.array([d_[0] + f_ * (d_[1] - d_[0]) for f_ in (0.2, 0.5, 0.9)])))]
+                                                     if (d_ := v.get_domain()) is not None and not isinstance(d_, list) else None)))}
                        for v in system.variables()}
     for c in system.components:
         st['components'][c.name]['model_kwargs'] = str(dict(c.model_kwargs.data)) if hasattr(c.model_kwargs, 'data') else str(c.model_kwargs)
